@@ -96,10 +96,10 @@ inductive Atomic (names : List String) : SortSt → SortSt → Prop
       Atomic names st { st with sorted := st.sorted.take k ++ [s] ++ st.sorted.drop k }
   | append (st : SortSt) (s : String) : s ∈ names → s ∉ st.sorted →
       Atomic names st { st with sorted := st.sorted ++ [s] }
-  | setAfter (st : SortSt) (i idx : Nat) : i < st.cs.size →
+  | setAfter (st : SortSt) (i idx : Nat) : i < st.cs.size → (st.cs[i]!).before ≠ "" →
       getRIndex names (st.cs[i]!).before = some idx →
       Atomic names st { st with cs := Gorm.setAfter st.cs idx (st.cs[i]!).name }
-  | setBefore (st : SortSt) (i idx : Nat) : i < st.cs.size →
+  | setBefore (st : SortSt) (i idx : Nat) : i < st.cs.size → (st.cs[i]!).after ≠ "" →
       getRIndex names (st.cs[i]!).after = some idx →
       Atomic names st { st with cs := Gorm.setBefore st.cs idx (st.cs[i]!).name }
 
@@ -129,13 +129,13 @@ theorem WF.name_mem {names : List String} {st : SortSt} (h : WF names st) {i : N
 theorem atomic_wf {names : List String} {a b : SortSt} (h : Atomic names a b) (hw : WF names a) : WF names b := by
   cases h with
   | prepend | insert | append => exact hw
-  | setAfter i idx hi hg =>
+  | setAfter i idx hi hne hg =>
     refine ⟨by simpa [setAfter_size] using hw.1, ?_⟩
     intro j hj
     simp only [setAfter_size] at hj
     rw [hw.2 j hj, setAfter_get]
     split <;> rfl
-  | setBefore i idx hi hg =>
+  | setBefore i idx hi hne hg =>
     refine ⟨by simpa [setBefore_size] using hw.1, ?_⟩
     intro j hj
     simp only [setBefore_size] at hj
@@ -159,8 +159,8 @@ theorem atomic_name {names : List String} {a b : SortSt} (h : Atomic names a b) 
     (b.cs[j]!).name = (a.cs[j]!).name := by
   cases h with
   | prepend | insert | append => rfl
-  | setAfter i idx hi hg => simp only [setAfter_get]; split <;> rfl
-  | setBefore i idx hi hg => simp only [setBefore_get]; split <;> rfl
+  | setAfter i idx hi hne hg => simp only [setAfter_get]; split <;> rfl
+  | setBefore i idx hi hne hg => simp only [setBefore_get]; split <;> rfl
 
 theorem reach_name {names : List String} {a b : SortSt} (h : Reach names a b) (j : Nat) :
     (b.cs[j]!).name = (a.cs[j]!).name := by
@@ -218,8 +218,8 @@ theorem atomic_sameId {names : List String} {a b : SortSt} (h : Atomic names a b
     sameId (b.cs[j]!) (a.cs[j]!) := by
   cases h with
   | prepend | insert | append => exact ⟨rfl, rfl, rfl, rfl, rfl⟩
-  | setAfter i idx hi hg => simp only [setAfter_get]; split <;> exact ⟨rfl, rfl, rfl, rfl, rfl⟩
-  | setBefore i idx hi hg => simp only [setBefore_get]; split <;> exact ⟨rfl, rfl, rfl, rfl, rfl⟩
+  | setAfter i idx hi hne hg => simp only [setAfter_get]; split <;> exact ⟨rfl, rfl, rfl, rfl, rfl⟩
+  | setBefore i idx hi hne hg => simp only [setBefore_get]; split <;> exact ⟨rfl, rfl, rfl, rfl, rfl⟩
 
 theorem reach_sameId {names : List String} {a b : SortSt} (h : Reach names a b) (j : Nat) :
     sameId (b.cs[j]!) (a.cs[j]!) := by
@@ -238,7 +238,8 @@ theorem beforeBlock_reach (names : List String) (i : Nat) (st : SortSt)
   unfold beforeBlock
   simp only
   split
-  · split
+  · rename_i hne
+    split
     · split
       · rename_i hn
         exact Reach.one (Atomic.prepend st _ hmem (not_mem_of_isNone _ _ hn))
@@ -250,7 +251,7 @@ theorem beforeBlock_reach (names : List String) (i : Nat) (st : SortSt)
         · split <;> exact Reach.refl _
       · split
         · rename_i idx hg
-          exact Reach.one (Atomic.setAfter st i idx hi hg)
+          exact Reach.one (Atomic.setAfter st i idx hi hne hg)
         · exact Reach.refl _
   · exact Reach.refl _
 
@@ -261,7 +262,8 @@ theorem afterBlock_reach (recur : Nat → SortSt → SortRes) (names : List Stri
   unfold afterBlock
   simp only
   split
-  · split
+  · rename_i hne
+    split
     · split
       · rename_i hn
         exact Reach.one (Atomic.append st _ hmem (not_mem_of_isNone _ _ hn))
@@ -279,7 +281,7 @@ theorem afterBlock_reach (recur : Nat → SortSt → SortRes) (names : List Stri
           have h0 : Reach names st (if (st.cs[idx]!).before = "" then
               ({ st with cs := setBefore st.cs idx (st.cs[i]!).name } : SortSt) else st) := by
             split
-            · exact Reach.one (Atomic.setBefore st i idx hi hg)
+            · exact Reach.one (Atomic.setBefore st i idx hi hne hg)
             · exact Reach.refl _
           have hw0 := reach_wf h0 hw
           have hs0 := reach_size h0
